@@ -299,7 +299,6 @@ def modelcheck(kripke, formula, parser=None, F=None):
 
     try:
         p_formula = LNot(formula.subformula(0))
-        p_formula = p_formula.get_equivalent_restricted_formula()
 
         if F is not None:
             kripke = kripke.clone()
@@ -308,6 +307,8 @@ def modelcheck(kripke, formula, parser=None, F=None):
 
             p_formula = p_formula.get_equivalent_non_fair_formula(fair_label)
             p_formula = And(fair_label, p_formula)
+
+        p_formula = p_formula.get_equivalent_restricted_formula()
 
         return set(kripke.states())-_checkE_path_formula(kripke, p_formula)
     except TypeError:
